@@ -152,6 +152,7 @@ Apply(op, h) ==
     [] op = "truncEnc"    -> [h EXCEPT !.ech.enc = [to |-> "malformed", id |-> "e4"]]
     [] op = "flipCt"      -> [h EXCEPT !.ech.ct.ok = FALSE]
     [] op = "truncCt"     -> [h EXCEPT !.ech.ct.ok = FALSE]
+    [] op \in {"tinyCt", "emptyCt"} -> [h EXCEPT !.ech.ct.ok = FALSE]     \* a payload shorter than an AEAD tag (5 bytes / none at all)
     [] op = "echTrailing" -> [h EXCEPT !.ech.trail = TRUE]                                 \* bytes appended after the payload inside the ECH extension
     [] op = "wrongInfo"   -> [h EXCEPT !.ech.ct.info = "c1b"]                              \* sealed to the same key under other config bytes
     [] op \in {"unlistedSuite", "otherCid"} -> h      \* (see ApplyK: needs the client's key)
@@ -211,7 +212,7 @@ NeedsEoe == {"eoeOdd", "eoeBadLen", "eoeRepeated", "eoeAmplify", "eoeMissing", "
 NeedsEoe2 == {"eoeOutOfOrder"}
 NoEoeOps == {"eoeRefsSni"}
 Tampers == {"echTrailing", "swap1", "swapLast", "drop2", "addExt", "changeVal", "changeSid", "changeCid", "changeSuite", "otherEnc", "encToOther",
-            "truncEnc", "flipCt", "truncCt", "wrongInfo", "otherCid"}
+            "truncEnc", "flipCt", "truncCt", "tinyCt", "emptyCt", "wrongInfo", "otherCid"}
 PassOps == {"noEch", "grease", "no13", "noSv", "unlistedSuite"}
 \* the alert class each illegal hello must be answered with
 ClassOf(op) ==
